@@ -15,6 +15,7 @@
 //   team new S | fromvec S <mep slot>* | sig S | copy D S | mutate S <pgm‰> | xover D A B
 //        load D S | loadbad D S <cut>
 //   murmur <hex>                             -> hash128 of the bytes
+//   combine <a0> <a1> <h0> <h1>              -> hash_t(a0, a1).combine(hash_t(h0, h1))
 //
 // <gene> = <opcode>:<parameter bits>:<arg>,<arg>…  (`-` for no arguments)
 //
@@ -375,6 +376,12 @@ std::string handle(const std::vector<std::string> &t)
   {
     const std::string b(verif::unhex(t.at(1)));
     return sig_s(vita::hash::hash128(b.data(), b.size()));
+  }
+  if (k == "combine")   // hash_t(a0, a1).combine(hash_t(h0, h1))
+  {
+    hash_t a(std::stoull(t.at(1)), std::stoull(t.at(2)));
+    a.combine(hash_t(std::stoull(t.at(3)), std::stoull(t.at(4))));
+    return sig_s(a);
   }
   const std::string &op(t.at(1));
   const auto pgm = [&](const std::string &s) { return std::stoul(s) / 1000.0; };
